@@ -17,13 +17,15 @@ ALPHA = {
               "a id: a"],      # the key's text also occurs earlier on the line, outside the capture
     # the regex contains the host's comment marker
     "hash": ["#1 x", "#1 y", "#2", "  #1", "", "n 1", "1", "a#2b", "# 1", "#12", "issue #1"],
+    # the `value` group may match nothing: the empty string is a key like any other
+    "empty-key": ["a=", "b=", "a=1", "b=1", "c=2", "", "x", "  d=", "e= ", "a=1 "],
     "plain": ["a1 x", "a1 y", "b2 x", "  a1", "zz a1", "", "   ", "other", "a12", "A1", "a1", "b2"],
 }
 ALPHA["group2"] = ALPHA["group"]     # same lines, regex with unnamed capturing groups before and after `value`
 ALPHA["optional-group"] = ALPHA["group"]
 ALPHA["with-keep-sorted"] = ALPHA["none"]   # the block also carries keep-sorted (whose own diagnostics are not this check's subject)
 ALPHA["anchored"] = ALPHA["group"]   # same lines, regex anchored at both ends (line terminators must not be part of a line)
-PATTERN = {"none": None, "hash": r"#(?P<value>\d+)", "group": r"id: (?P<value>\w+)", "plain": r"[a-z]\d+", "group2": r"(id|ID): (?P<value>\w+)( x| y)?",
+PATTERN = {"none": None, "empty-key": r"^\s*\w+=(?P<value>\w*)", "hash": r"#(?P<value>\d+)", "group": r"id: (?P<value>\w+)", "plain": r"[a-z]\d+", "group2": r"(id|ID): (?P<value>\w+)( x| y)?",
            "anchored": r"^\s*id: (?P<value>\w+)$", "optional-group": r"id: (?P<value>[a-z]+)|\w+",
            "with-keep-sorted": None}
 RULE = ("Bounded-exhaustive: every sequence of up to MAXLEN lines over a 12-symbol alphabet (repeated keys, keys differing "
@@ -46,7 +48,7 @@ def _attrs(mode, bare):
 def plan(tier, seed):
     jobs = []
     maxlen = MAXLEN[tier]
-    for mode in ("none", "group", "plain", "group2", "anchored", "optional-group", "with-keep-sorted", "hash"):
+    for mode in ("none", "group", "plain", "group2", "anchored", "optional-group", "with-keep-sorted", "hash", "empty-key"):
         for bare in ((True, False) if mode in ("none", "with-keep-sorted") else (False,)):
             jobs.append({"k": "enum", "mode": mode, "bare": bare, "len": (0, min(3, maxlen)), "first": None})
             for L in range(4, maxlen + 1):
